@@ -41,7 +41,7 @@ def run(ctx):
     ctx.extra["trusted_base"] = ["syn AST dump", "lib/formula.py evaluator", "lib/relmodel.py (the relation itself is the extracted one, proved against its definitions by C13)",
                                  "model of TextResource::range: forward yields selections whose begin is in [lo,hi), backward those whose end is in [lo,hi) (checked structurally by C06.ITER)",
                                  "TextSelectionSet::begin()/end() modelled as min begin / max end (C13.EXTREME checks leftmost/rightmost)"]
-    ctx.not_decided += ["order of the results", "the all-or-nothing semantics of the Equals shortcut", "reference sets with more than two members"]
+    ctx.not_decided += ["order of the results", "reference sets with more than two members"]
 
     init = syn.fn("init_textseliters", self_ty="FindTextSelectionsIter")
     nxt = syn.fn("next_textselection", self_ty="FindTextSelectionsIter")
@@ -179,7 +179,8 @@ def run(ctx):
     r_filter = ctx.rule("C06.FILTER", "outside the Equals shortcut a handle is yielded only under refset.test(&self.operator, candidate, resource)")
     r_self = ctx.rule("C06.SELF", "both iteration directions exclude members of the reference set unconditionally")
     # the else-branch of the `if let Equals {..} = self.operator`
-    top = [n for n in nxt.body["stmts"] if n["k"] == "exprstmt" and n["e"].get("k") == "if"]
+    # (the top-level `if let .. Equals .. = self.operator` with an else branch; guards that return early may precede it)
+    top = [n for n in nxt.body["stmts"] if n["k"] == "exprstmt" and n["e"].get("k") == "if" and n["e"].get("else") and strip(n["e"]["cond"]).get("k") == "letexpr" and "Equals" in strip(n["e"]["cond"])["pat"]["s"]]
     if not top or not top[0]["e"].get("else"):
         ctx.anchor_missing(r_filter, "`if let Equals {..} = self.operator {..} else {..}` in next_textselection")
     else:
@@ -361,6 +362,7 @@ def run(ctx):
                     ctx.report(r_g, key + "->" + y, "%s inserts into %s under the guard !%s.contains(..): the guard looks at a different container, so the entry is skipped whenever the other container happens to hold an equal element (and duplicates are not prevented)" % (fn.qual, y, x), fn.file, e["l"])
     ctx.floor(r_g, ng, 4, "membership-guarded insertions")
     refset_rule(ctx, syn)
+    shortcut_rule(ctx)
 
 
 def split_and(c):
@@ -412,3 +414,48 @@ def refset_rule(ctx, syn):
             if lit.get("k") == "structlit" and lit["path"][-1] == "TextSelection":
                 ctx.report(r, fn.qual, "%s builds a new TextSelection { .. } for the set instead of taking the known selection itself: the handle is lost, has_handle() no longer recognises the reference, and a search from a known selection returns that selection as related to itself" % fn.qual, fn.file, lit.get("l"))
     ctx.floor(r, n, 4, "conversions of known selections into TextSelectionSet")
+
+
+# ---------------------------------------------------------------------- EMPTY / ALLORNONE
+def shortcut_rule(ctx):
+    """two path properties of FindTextSelectionsIter::next_textselection (MIR):
+    EMPTY - a reference set without members (an annotation that has no text) has no extent: init_textseliters unwraps
+    begin()/end() and the iterator vector is indexed at 0, so the emptiness of the reference must be tested before;
+    ALLORNONE - the Equals shortcut answers only if every member of the reference is a known selection: the path on
+    which known_textselection finds nothing must drop what was buffered for the earlier members."""
+    import mirq
+    prog = mirq.Program(ctx.facts.mir())
+    r1 = ctx.rule("C06.EMPTY", "in next_textselection every path to init_textseliters passes through a test of TextSelectionSet::is_empty on the reference set (searching from no text gives nothing, not a panic)")
+    r2 = ctx.rule("C06.ALLORNONE", "in the Equals shortcut every path from a failed known_textselection look-up to the return passes through buffer.clear(): members found before the miss are not returned")
+    bs = prog.find_bodies(r"FindTextSelectionsIter::<'store>::next_textselection$")
+    if len(bs) != 1:
+        ctx.anchor_missing(r1, "FindTextSelectionsIter::next_textselection")
+        return
+    b = bs[0]
+    ctx.functions_analysed.add(b.id)
+    calls = dict((bi, mirq.callee_of(t)[0] or "") for bi, t in b.calls())
+    inits = [bi for bi, c in calls.items() if c.endswith("init_textseliters")]
+    empties = set(bi for bi, c in calls.items() if c.endswith("TextSelectionSet::is_empty"))
+    rets = [bi for bi, blk in enumerate(b.blocks) if blk["t"]["t"] == "return"]
+    r1.hit("next_textselection", sample={"init_calls": len(inits), "emptiness_tests": len(empties)})
+    if not inits:
+        ctx.anchor_missing(r1, "call of init_textseliters in next_textselection")
+    for i_ in inits:
+        if 0 not in empties and b.can_reach(0, i_, avoid=empties):
+            ctx.report(r1, "unguarded-init", "next_textselection can reach init_textseliters without having tested whether the reference set is empty: with an annotation that has no text as reference, refset.begin().unwrap() / textseliters[0] panic", b.file, b.blocks[i_]["t"].get("line"))
+            break
+    known = [bi for bi, c in calls.items() if c.endswith("TextResource::known_textselection")]
+    pushes = set(bi for bi, c in calls.items() if c.endswith("VecDeque::<T, A>::push_back"))
+    clears = set(bi for bi, c in calls.items() if c.endswith("VecDeque::<T, A>::clear"))
+    somes = set(bi for bi, blk in enumerate(b.blocks) if any((s_.get("rv") or {}).get("r") == "agg" and s_["rv"].get("variant") == "Some" and s_["p"]["l"] == 0 and not s_["p"]["p"] for s_ in blk["s"]))
+    r2.hit("equals-shortcut", sample={"look_ups": len(known), "buffer_clears": len(clears)})
+    if not known:
+        ctx.anchor_missing(r2, "known_textselection look-up in next_textselection")
+    for k_ in known:
+        t = b.blocks[k_]["t"]
+        nxt = t.get("target")
+        # the miss path: from the look-up to a return without a success (push to the buffer / Some(handle) returned) - and without the clear
+        avoid = pushes | clears | somes | set(inits)
+        if isinstance(nxt, int) and nxt not in avoid and any(nxt == rt or b.can_reach(nxt, rt, avoid=avoid) for rt in rets):
+            ctx.report(r2, "miss-keeps-buffer", "in the Equals shortcut of next_textselection the path on which known_textselection finds no selection for a member of the reference set reaches the return without clearing the buffer: the selections found for earlier members are returned although the comment (and the all-or-nothing meaning of EQUALS on a set) says none are", b.file, t.get("line"))
+            break
